@@ -427,7 +427,12 @@ def run_impl(scratch, cfg, st=None):
     try:
         if st.get("relative"):
             os.chdir(scratch.root)
-        return _run_impl(scratch, cfg, st, base_path)
+        try:
+            return _run_impl(scratch, cfg, st, base_path)
+        except Exception as e:  # noqa - an unexpected exception of the implementation is a result, not a harness crash
+            import traceback
+
+            return {"config_err": "unexpected %s: %s" % (type(e).__name__, str(e)[:200]), "traceback": traceback.format_exc()[-1500:]}
     finally:
         os.chdir(cwd)
         sys.path[:] = saved
@@ -442,13 +447,16 @@ def _run_impl(scratch, cfg, st, base_path):
             out["vl_option"] = cfg.get_main_option("version_locations")
             out["prepend_option"] = cfg.get_main_option("prepend_sys_path")
             sd = ScriptDirectory.from_config(cfg)
+            tail = sys.path[len(sys.path) - len(base_path):] if len(sys.path) >= len(base_path) else None
+            out["sys_path_new"] = list(sys.path[: len(sys.path) - len(base_path)]) if tail == base_path else None
+            out["sys_path_head"] = list(sys.path[:6])
+            out["version_locations"] = None if sd.version_locations is None else [str(x) for x in sd.version_locations]
+            # memoized property: resolves package resources, may raise for a location the implementation mangled
+            out["resolved"] = [str(x) for x in sd._version_locations]
+            out["truncate_slug_length"] = sd.truncate_slug_length
         except Exception as e:
             out["config_err"] = "%s: %s" % (type(e).__name__, str(e)[:200])
             return out
-        out["sys_path_new"] = list(sys.path[: len(sys.path) - len(base_path)]) if sys.path[len(sys.path) - len(base_path):] == base_path else None
-        out["version_locations"] = None if sd.version_locations is None else [str(x) for x in sd.version_locations]
-        out["resolved"] = [str(x) for x in sd._version_locations]
-        out["truncate_slug_length"] = sd.truncate_slug_length
         captured = []
         orig = sd.revision_map._generator
 
